@@ -244,6 +244,7 @@ type ValCall struct {
 	Tag    string
 	OK     bool
 	CtxErr bool
+	Leader string // the member the library named as the proposer
 }
 type ReqCall struct {
 	Height uint64
@@ -294,7 +295,7 @@ func (b *BlockUtils) ValidateBlockProposal(ctx context.Context, h primitives.Blo
 	if block == nil && b.AcceptNil {
 		ok = true
 	}
-	b.Vals = append(b.Vals, ValCall{uint64(h), TagOf(block), ok, ctx.Err() != nil})
+	b.Vals = append(b.Vals, ValCall{uint64(h), TagOf(block), ok, ctx.Err() != nil, string(m)})
 	if !ok {
 		return errors.New("consumer rejects proposal")
 	}
